@@ -1041,6 +1041,19 @@ class World:
     # -------------------------------------------------------------- dispatch
 
     def step(self, i, op):
+        try:
+            return self._step(i, op)
+        except Violation as v:
+            if v.v["prop"] != "C02":
+                # committed files must be intact whatever else went wrong in this operation
+                try:
+                    self.check_protected(f"op {i} {op['op']}")
+                except Violation as v2:
+                    v2.also = [v.v]
+                    raise v2
+            raise
+
+    def _step(self, i, op):
         k = op["op"]
         self.steps += 1
         if k in T.DATA_OPS:
@@ -1357,6 +1370,10 @@ class IH5StoreEngine:
                 v = dict(e.v)
                 v["step"] = len(log)
                 viol.append(v)
+                for o in getattr(e, "also", []):
+                    o = dict(o)
+                    o["step"] = len(log)
+                    viol.append(o)
             except SimRunaway as e:
                 viol.append({"prop": "C01", "oracle": "no-progress", "detail": str(e), "shape": "runaway", "step": len(log)})
             except env.HarnessError:
